@@ -75,7 +75,7 @@ pub fn run(ctx: &Ctx) -> i32 {
     // start states
     let mut starts: Vec<Start> = vec![];
     let mut inits: Vec<(String, St)> = vec![];
-    let mut add = |name: String, pkg: rpm::Package, last: Signer, starts: &mut Vec<Start>, inits: &mut Vec<(String, St)>| {
+    let add = |name: String, pkg: rpm::Package, last: Signer, starts: &mut Vec<Start>, inits: &mut Vec<(String, St)>| {
         let b = bytes_of(&pkg);
         let l = scan(&b).unwrap_or_else(|| crate::ctx::machinery("start package does not scan")).3;
         starts.push(Start { name: name.clone(), header: b[l.hdr_off..l.payload_off].to_vec(), payload: b[l.payload_off..].to_vec() });
